@@ -12,11 +12,5 @@ python3 tools/genmain.py
 (cd lean/OntVerif && lake build)
 # warm the Go build cache: every harness binary once (checks rebuild them from /repo's working tree anyway)
 cd harness
-for d in cmd/*/; do
-  n=$(basename "$d")
-  go build -tags verif -o ../build/bin/hx-$n ./cmd/$n &
-  # at most 6 links at a time
-  while [ "$(jobs -r | wc -l)" -ge 6 ]; do sleep 0.2; done
-done
-wait
+ls cmd | xargs -P 6 -I{} sh -c 'if [ "{}" = factgen ]; then go build -o ../build/bin/factgen ./cmd/factgen; else go build -tags verif -o ../build/bin/hx-{} ./cmd/{}; fi'
 echo "setup done"
